@@ -332,26 +332,102 @@ def t2_key_codec(ctx):
 
 
 def t5_wiring(ctx):
+    """save_json serialises _stringify_keys(data) with the array encoder; load_json decodes with the array hook. Three-valued: the encoder may be named by `cls=` of
+    json.dump(s) or instantiated and asked to (iter)encode; the hook may be the `object_hook=` of json.load(s) or installed by the __init__ of a JSONDecoder subclass
+    passed as `cls=`. A plain json.dump / json.loads without either is the wrong form; anything else is undecided."""
     repo = ctx.repo
     sj = repo.func(M, 'save_json')
     lj = repo.func(M, 'load_json')
-    dumps = q.calls_named(sj, 'dump', 'dumps')
-    ok = False
-    for c in dumps:
-        cl = q.kwarg(c, 'cls')
-        data = c.args[0] if c.args else None
-        if cl is not None and unparse(cl) == '_CustomEncoder' and data is not None:
-            src = sj.expand(data)
-            ok = any(isinstance(n, ast.Call) and dotted(n.func) == '_stringify_keys' for n in ast.walk(src)) or \
-                any(kind in ('assign',) and isinstance(v, ast.Call) and dotted(v.func) == '_stringify_keys'
-                    for kind, v, st, ex in sj.defs().get(unparse(data), []))
-    ctx.check(ok, 'C18.T5', sj, dumps[0] if dumps else sj.node.name,
-              'save_json dumps _stringify_keys(data) with the array encoder',
-              'save_json does not pass the stringified dictionary through the array encoder')
-    loads = q.calls_named(lj, 'loads', 'load')
-    hook_ok = any(unparse(q.kwarg(c, 'object_hook')) == '_json_custom_hook' for c in loads if q.kwarg(c, 'object_hook') is not None)
-    ctx.check(hook_ok, 'C18.T5', lj, loads[0] if loads else lj.node.name,
-              'load_json decodes with the array hook', 'load_json does not install the array decoder hook')
+    enc_cls = repo.func(M, '_CustomEncoder.default').cls
+    hook = repo.func(M, '_json_custom_hook')
+    strf = repo.func(M, '_stringify_keys')
+
+    def cls_of(fi, e):
+        """True: names the encoder class (or a subclass); False: names the standard-library JSON encoder / nothing; None: something else."""
+        if e is None or (isinstance(e, ast.Constant) and e.value is None):
+            return False
+        if isinstance(e, ast.Name):
+            r = repo.resolve_name(fi.module, e.id)
+            if r is not None and r[0] == 'class':
+                ci = r[1]
+                for _ in range(6):
+                    if ci is enc_cls:
+                        return True
+                    nxt = [repo.resolve_name(ci.module, b) for b in ci.bases if '.' not in b]
+                    nxt = [x[1] for x in nxt if x is not None and x[0] == 'class']
+                    if not nxt:
+                        break
+                    ci = nxt[0]
+                return None
+        if (repo.ext_name(fi, e) or '') in ('json.JSONEncoder', 'json.encoder.JSONEncoder'):
+            return False
+        return None
+
+    def is_fn(fi, e, target):
+        if isinstance(e, ast.Name):
+            r = repo.resolve_name(fi.module, e.id)
+            return r is not None and r[0] in ('func', 'bound') and r[1].node is target.node
+        return False
+
+    def data_of(fi, e):
+        """True: the value comes out of _stringify_keys; False: it is the caller's dictionary itself; None: not followed."""
+        if e is None:
+            return None
+        src = fi.expand(e)
+        if any(isinstance(n, ast.Call) and is_fn(fi, n.func, strf) for n in ast.walk(src)):
+            return True
+        if isinstance(e, ast.Name) and any(kind == 'assign' and isinstance(v, ast.Call) and is_fn(fi, v.func, strf) for kind, v, st, ex in fi.defs().get(e.id, [])):
+            return True
+        if isinstance(src, ast.Name) and src.id in fi.params and not any(kind == 'assign' for kind, v, st, ex in fi.defs().get(src.id, [])):
+            return False
+        return None
+    sites = []          # (node, uses encoder, data through _stringify_keys)
+    for c in sj.calls():
+        ext = repo.ext_name(sj, c.func) or ''
+        if ext in ('json.dump', 'json.dumps'):
+            sites.append((c, cls_of(sj, q.kwarg(c, 'cls')), data_of(sj, c.args[0] if c.args else q.kwarg(c, 'obj'))))
+        elif isinstance(c.func, ast.Attribute) and c.func.attr in ('iterencode', 'encode') and c.args:
+            recv = sj.expand(c.func.value)
+            k = cls_of(sj, recv.func) if isinstance(recv, ast.Call) else None
+            if k is not None or isinstance(recv, ast.Call):
+                sites.append((c, k, data_of(sj, c.args[0])))
+    good = any(k is True and d is True for _, k, d in sites)
+    bad = bool(sites) and not good and all(k is False or d is False for _, k, d in sites)
+    ctx.tri(good, bad, 'C18.T5', sj, sites[0][0] if sites else sj.node.name,
+            'save_json serialises _stringify_keys(data) with the array encoder',
+            'save_json does not pass the stringified dictionary through the array encoder',
+            'save_json: the serialisation call was not recognised (json.dump(s) with cls=, or <encoder>(...).iterencode / encode)')
+
+    def decoder_installs_hook(ci):
+        init = repo.lookup_method(ci, '__init__')
+        if init is None or init.cls is not ci:
+            return None
+        for c in init.calls():
+            if isinstance(c.func, ast.Attribute) and c.func.attr == '__init__':
+                h = q.kwarg(c, 'object_hook')
+                if h is not None:
+                    return True if is_fn(init, h, hook) else None
+        return None
+    rsites = []
+    for c in lj.calls():
+        ext = repo.ext_name(lj, c.func) or ''
+        if ext not in ('json.loads', 'json.load'):
+            continue
+        h, cl = q.kwarg(c, 'object_hook'), q.kwarg(c, 'cls')
+        if h is not None:
+            rsites.append((c, True if is_fn(lj, h, hook) else None))
+        elif cl is not None:
+            r = repo.resolve_name(lj.module, cl.id) if isinstance(cl, ast.Name) else None
+            rsites.append((c, decoder_installs_hook(r[1]) if r is not None and r[0] == 'class' else None))
+        elif any(k.arg is None for k in c.keywords):
+            rsites.append((c, None))
+        else:
+            rsites.append((c, False))
+    rgood = any(k is True for _, k in rsites)
+    rbad = bool(rsites) and not rgood and all(k is False for _, k in rsites)
+    ctx.tri(rgood, rbad, 'C18.T5', lj, rsites[0][0] if rsites else lj.node.name,
+            'load_json decodes with the array hook', 'load_json does not install the array decoder hook',
+            'load_json: the decoding call was not recognised (json.load(s) with object_hook=, or cls= a JSONDecoder subclass whose __init__ installs the hook)')
     rets = [r for r in lj.returns() if r.value is not None]
     last = rets[-1] if rets else None
     intify = last is not None and any(isinstance(n, ast.Call) and dotted(n.func) == '_intify_keys' for n in ast.walk(lj.expand(last.value)))
